@@ -5,7 +5,7 @@ from .. import diffprop as D
 
 class S(K.ConnSpec):
     num = 19
-    bias = 0
+    bias = 15
     extra_rule = "Every event list of every call is judged by close_ordered (the predicate the theorem is about); keep-alive expiries on established connections must contain a close request."
 
 
